@@ -55,6 +55,14 @@ class GenericGroupRegistry(
         super()._init_dynamic_classes()
         self.Group = create_class_with_registry(self, objects.Group)
 
+    def __deepcopy__(self, memo):
+        new = super().__deepcopy__(memo)
+        # The copied groups are instances of the source registry's Group class,
+        # which is bound to the source registry: bind them to the copy.
+        for grp in new._groups.values():
+            grp.__class__ = new.Group
+        return new
+
     def _after_init(self) -> None:
         """Invoked at the end of ``__init__``.
 
